@@ -18,9 +18,27 @@ def orderOracle? : Sexp → Option (String → List String)
     pure fun p => (lookupD tbl p).getD []
   | _ => none
 
+/-- formatter in force: the default (English) table, an execution-level formatter for a language,
+    or the i18n formatter with this execution's `lang` context value -/
+def fmtOf : Sexp → Option (String → String → List (String × String) → String)
+  | .list [.atom "fmt", .atom "default"] => some (defaultFmt Gen.defaultMap)
+  | .list [.atom "fmt", .atom "exec", .atom "es"] => some (defaultFmt Gen.esMap)
+  | .list [.atom "fmt", .atom "exec", .atom "en"] => some (defaultFmt Gen.enMap)
+  | .list [.atom "fmt", .atom "i18n", .atom "-"] => some (i18nFmt [("en", Gen.enMap), ("es", Gen.esMap)] "en" none)
+  | .list [.atom "fmt", .atom "i18n", l] => do
+    let l ← l.str?
+    pure (i18nFmt [("en", Gen.enMap), ("es", Gen.esMap)] "en" (some l))
+  | _ => none
+
 def runEngine (args : List Sexp) : Option Sexp := do
   match args with
-  | [id, .atom mode, schemaS, destS, inputS, tagS, orderS, extS] =>
+  | [id, .atom mode, schemaS, destS, inputS, tagS, orderS, extS] => runEngine' id mode schemaS destS inputS tagS orderS extS (defaultFmt Gen.defaultMap)
+  | [id, .atom mode, schemaS, destS, inputS, tagS, orderS, extS, fmtS] => do
+    let f ← fmtOf fmtS
+    runEngine' id mode schemaS destS inputS tagS orderS extS f
+  | _ => none
+where runEngine' (id : Sexp) (mode : String) (schemaS destS inputS tagS orderS extS : Sexp)
+    (fmt : String → String → List (String × String) → String) : Option Sexp := do
     let m ← match mode with
       | "p" => some Mode.parse
       | "v" => some Mode.validate
@@ -34,14 +52,13 @@ def runEngine (args : List Sexp) : Option Sexp := do
       | .atom t => some t
       | _ => none
     let ω ← orderOracle? orderS
-    let env : Env := { fmt := defaultFmt Gen.enMap, ω := ω }
+    let env : Env := { fmt := fmt, ω := ω }
     let r := Engine.run env Gen.facts m s tag v d
     let sp := Spec.run env m s tag v d
     let pr (r : DVal × St) : Sexp :=
       node "res" [id, issueMapS (toIssueMap r.2.sink), node "dest" [dvalS r.1], node "log" (r.2.log.map eventS)]
     -- engine (mechanism model under the regenerated facts) and spec (reference semantics), tab-separated
     pure (.atom (toString (pr r) ++ "\t" ++ toString (pr sp)))
-  | _ => none
 
 /-- `(coerce ID KIND LAYOUT VAL EXT)`: one default coercer on one value -/
 def runCoerce (args : List Sexp) : Option Sexp := do
@@ -57,6 +74,46 @@ def runCoerce (args : List Sexp) : Option Sexp := do
       | none => pure (node "res" [id, .atom "err"])
   | _ => none
 
+/-- `(pred ID TEST DVAL EXT)`: one built-in test on one subject -/
+def runPred (args : List Sexp) : Option Sexp := do
+  match args with
+  | [id, testS, subj, extS] =>
+    let o ← oracle? extS
+    let t ← test? o testS
+    let d ← dval? subj
+    pure (node "res" [id, mkBool (t.pred d), mkStr t.code, .list (t.params.map fun (k, v) => .list [mkStr k, mkStr v])])
+  | _ => none
+
+/-- `(path ID SEG...)`: PathBuilder.String on a segment stack -/
+def runPath (args : List Sexp) : Option Sexp := do
+  match args with
+  | id :: segs => do
+    let segs ← segs.mapM Sexp.str?
+    pure (node "res" [id, mkStr (render segs)])
+  | _ => none
+
+def issue? : Sexp → Option Issue
+  | .list [.atom "I", c, p, d, .list ps, m] => do
+    let ps ← ps.mapM fun kv => match kv with
+      | .list [k, v] => do pure (← k.str?, ← v.str?)
+      | _ => none
+    pure { code := ← c.str?, path := ← p.str?, dtype := ← d.str?, params := ps, message := ← m.str? }
+  | _ => none
+
+/-- `(imap ID ISSUE...)`: ErrsMap.Add over a sequence, then the sanitized map -/
+def runIMap (args : List Sexp) : Option Sexp := do
+  match args with
+  | id :: iss => do
+    let iss ← iss.mapM issue?
+    let m := toIssueMap iss
+    let san := m.map (fun p => (p.1, p.2.map (·.message)))
+    let sorted := san.foldl (fun acc kv => insertSortedS kv.1 kv.2 acc) []
+    pure (node "res" [id, issueMapS m, node "san" (sorted.map fun (k, ms) => .list (mkStr k :: ms.map mkStr))])
+  | _ => none
+where insertSortedS (k : String) (v : List String) : List (String × List String) → List (String × List String)
+  | [] => [(k, v)]
+  | (k', v') :: rest => if k < k' then (k, v) :: (k', v') :: rest else (k', v') :: insertSortedS k v rest
+
 def dispatch (line : String) : String :=
   match Sexp.parse line with
   | none => "(bad-line)"
@@ -66,6 +123,18 @@ def dispatch (line : String) : String :=
       match runEngine args with
       | some r => toString r
       | none => "(bad-case engine)"
+    | some ("path", args) =>
+      match runPath args with
+      | some r => toString r
+      | none => "(bad-case path)"
+    | some ("imap", args) =>
+      match runIMap args with
+      | some r => toString r
+      | none => "(bad-case imap)"
+    | some ("pred", args) =>
+      match runPred args with
+      | some r => toString r
+      | none => "(bad-case pred)"
     | some ("coerce", args) =>
       match runCoerce args with
       | some r => toString r
